@@ -103,7 +103,10 @@ func (in *inst) rawTrip(lst string, payload []byte, frameLen int, get bool) (str
 }
 
 func modeC01(thorough bool) {
-	in, err := newInst("c01", instOpts{listeners: allListeners, upstreams: map[string]string{"u1": "udp"}, rules: []ruleSpec{{Forward: "u1"}}})
+	// a regular-expression rule and the query log make every question name pass through the text form
+	in, err := newInst("c01", instOpts{listeners: allListeners, upstreams: map[string]string{"u1": "udp"},
+		sets:  map[string][]string{"rx": {"regexp:^never\\.matches\\.[0-9]+$"}},
+		rules: []ruleSpec{{Set: "rx", Reject: 5}, {Forward: "u1"}}, logQueries: true})
 	if err != nil {
 		panic(err)
 	}
@@ -116,12 +119,23 @@ func modeC01(thorough bool) {
 		[]byte{0xbe, 0xef, 0x01, 0x00, 0, 1, 0, 0, 0, 0, 0, 0, 0xC0, 0x0C, 0, 1, 0, 1},   // name = pointer to itself
 		[]byte{0xbe, 0xef, 0x01, 0x00, 0, 1, 0, 0, 0, 0, 0, 0, 0xC0, 0x0D, 0, 1, 0, 1},   // pointer to its own second octet
 		[]byte{0xbe, 0xef, 0x01, 0x00, 0, 1, 0, 0, 0, 0, 0, 0, 0x40, 'a', 0, 0, 1, 0, 1}, // reserved label prefix
-		[]byte{1, 2, 3},                 // shorter than a header
-		valid[:len(valid)-3],            // truncated question
+		[]byte{1, 2, 3},      // shorter than a header
+		valid[:len(valid)-3], // truncated question
 		append(append([]byte{}, valid[:5]...), append([]byte{9}, valid[6:]...)...), // QDCOUNT lies
-		append(append([]byte{}, valid...), 1, 2, 3, 4, 5), // trailing octets after a valid query (decodable)
+		append(append([]byte{}, valid...), 1, 2, 3, 4, 5),                          // trailing octets after a valid query (decodable)
 		bytes.Repeat([]byte{0xff}, 600),
 	)
+	// valid queries whose names are as long as a name can be and consist of octets that need escaping in text
+	// form (\DDD: four characters per octet) or of dots and backslashes inside labels
+	for _, fill := range []byte{0x01, 0xff, '.', '\\', ' '} {
+		p := append([]byte{}, valid[:12]...)
+		for _, ll := range []int{63, 63, 63, 59} {
+			p = append(p, byte(ll))
+			p = append(p, bytes.Repeat([]byte{fill}, ll)...)
+		}
+		p = append(p, 0, 0, 1, 0, 1)
+		payloads = append(payloads, p)
+	}
 	big := append(append([]byte{}, valid[:6]...), 0xff, 0xff)
 	big = append(big, valid[8:]...)
 	payloads = append(payloads, big) // ANCOUNT 65535 with no data
